@@ -1,5 +1,6 @@
 SPECIFICATION Spec
 CONSTANT DigitVals = {48, 57}
+CONSTANT FullAlphabet = FALSE
 INVARIANT ComputedDigitsValidate
 INVARIANT OnlyComputedDigitsValidate
 INVARIANT CorruptionDetected
